@@ -38,7 +38,7 @@ def _prepare_path():
 
 _prepare_path()
 
-from vk.core import Violation, HarnessError, take_labels, abbrev  # noqa: E402
+from vk.core import Violation, HarnessError, take_labels, take_counts, abbrev  # noqa: E402
 
 
 # --------------------------------------------------------------------------
@@ -154,13 +154,17 @@ class Stats(object):
         self.harness = None
         self.regress_replayed = 0
         self.wall = 0.0
+        self.counters = collections.Counter()            # summed over all cases
+        self.distinct_counters = collections.Counter()   # summed over distinct case hashes only
+        self.seen = set()
 
     def as_dict(self):
         return dict(evaluations=self.evaluations, labels=dict(self.labels),
                     nontrivial=sorted(self.nontrivial), samples=self.samples,
                     excluded=dict(self.excluded), violation=self.violation,
                     harness=self.harness, regress_replayed=self.regress_replayed,
-                    wall=self.wall)
+                    wall=self.wall, counters=dict(self.counters), distinct_counters=dict(self.distinct_counters),
+                    seen=sorted(self.seen) if self.distinct_counters else [])
 
 
 def strip_obs(case):
@@ -187,6 +191,7 @@ class Executor(object):
         (excluded by construction, the caller abandons this case); raises on anything else."""
         st = self.stats
         take_labels()
+        take_counts()
         try:
             with isolated():
                 thunk()
@@ -217,6 +222,13 @@ class Executor(object):
         st.evaluations += 1
         for lab in labels:
             st.labels[lab] += 1
+        counts = take_counts()
+        if counts:
+            st.counters.update(counts)
+            hh = case_hash(strip_obs(case))
+            if hh not in st.seen:
+                st.seen.add(hh)
+                st.distinct_counters.update(counts)
         if self.sc.nontrivial(case, labels):
             st.labels['NONTRIVIAL'] += 1
             h = case_hash(strip_obs(case))
@@ -398,13 +410,22 @@ def main(argv=None):
     for r in results:
         d = per_sub.setdefault(r['subcheck'], dict(evaluations=0, labels=collections.Counter(),
                                                   nontrivial=set(), samples=[], excluded=collections.Counter(),
-                                                  regress_replayed=0, shards=0, wall=0.0))
+                                                  regress_replayed=0, shards=0, wall=0.0, counters=collections.Counter(),
+                                                  distinct_counters=collections.Counter(), seen=set()))
         d['evaluations'] += r['evaluations']
         d['labels'].update(r['labels'])
         d['nontrivial'].update(r['nontrivial'])
         d['samples'].extend(r['samples'])
         d['excluded'].update(r['excluded'])
         d['regress_replayed'] += r['regress_replayed']
+        d['counters'].update(r.get('counters', {}))
+        if r.get('distinct_counters'):
+            # counters of scenarios already seen in another shard are not counted twice
+            new = [h for h in r.get('seen', []) if h not in d['seen']]
+            frac = len(new) / float(max(1, len(r.get('seen', []))))
+            for kk, vv in r['distinct_counters'].items():
+                d['distinct_counters'][kk] += int(round(vv * frac))
+            d['seen'].update(new)
         d['shards'] += 1
         d['wall'] = max(d['wall'], r['wall'])
         if r['violation']:
@@ -414,6 +435,16 @@ def main(argv=None):
 
     total_eval = sum(d['evaluations'] for d in per_sub.values())
     total_nt = sum(len(d['nontrivial']) for d in per_sub.values())
+    counters = collections.Counter()
+    dcounters = collections.Counter()
+    for d in per_sub.values():
+        counters.update(d['counters'])
+        dcounters.update(d['distinct_counters'])
+    cases_eval, cases_nt = total_eval, total_nt
+    if getattr(mod, 'EVAL_COUNTER', None):
+        # fault enumeration: an evaluation is one fault-injected execution, not one scenario
+        total_eval = counters.get(mod.EVAL_COUNTER, 0)
+        total_nt = dcounters.get(mod.NONTRIVIAL_COUNTER, 0)
     excluded = collections.Counter()
     for d in per_sub.values():
         excluded.update(d['excluded'])
@@ -467,12 +498,12 @@ def main(argv=None):
                       evaluations=total_eval, distinct_nontrivial=total_nt, rule=mod.RULE,
                       samples=samples,
                       exhaustive=bool(getattr(mod, 'EXHAUSTIVE', False)),
-                      excluded_known=dict(excluded),
+                      excluded_known=dict(excluded), counters=dict(counters), scenarios=cases_eval, scenarios_distinct_nontrivial=cases_nt,
                       harness_errors=len(harness),
                       subchecks={name: dict(evaluations=d['evaluations'],
                                             distinct_nontrivial=len(d['nontrivial']),
                                             labels=dict(sorted(d['labels'].items())),
-                                            regress_replayed=d['regress_replayed'],
+                                            counters=dict(d['counters']), regress_replayed=d['regress_replayed'],
                                             shards=d['shards'], wall_s=round(d['wall'], 2),
                                             doc=find_subcheck(mod, name).doc)
                                  for name, d in per_sub.items()}))
